@@ -224,6 +224,7 @@ func (e *Explorer) newInterp(solver *Solver, spec pathSpec) *interpreter {
 		solver:     solver,
 		maxSteps:   e.cfg.MaxSteps,
 		pcSet:      make(map[*Term]bool),
+		native:     make(map[*value]interface{}),
 		funcInstrs: make(map[*ssa.Function]int64),
 		stubsHit:   make(map[string]int),
 		store:      make(map[string]value),
@@ -661,7 +662,11 @@ func (i *interpreter) matchKnown(label string) *KnownFinding {
 		if kf.Status == "fixed" {
 			continue
 		}
-		if kf.Label != label {
+		if strings.HasSuffix(kf.Label, "*") {
+			if !strings.HasPrefix(label, strings.TrimSuffix(kf.Label, "*")) {
+				continue
+			}
+		} else if kf.Label != label {
 			continue
 		}
 		if kf.Harness != "" && kf.Harness != i.ex.cfg.Harness {
@@ -669,7 +674,14 @@ func (i *interpreter) matchKnown(label string) *KnownFinding {
 		}
 		ok := true
 		for key, want := range kf.Observe {
-			if i.run.observe[key] != want {
+			// "a|b" lists alternatives
+			hit := false
+			for _, alt := range strings.Split(want, "|") {
+				if i.run.observe[key] == alt {
+					hit = true
+				}
+			}
+			if !hit {
 				ok = false
 			}
 		}
